@@ -120,7 +120,8 @@ fn integer(rng: &mut Rng) -> (String, &'static str) {
             }
             (s, "int-bin")
         }
-        2 => (["9223372036854775807", "-9223372036854775808", "+9223372036854775807", "0", "-0", "+0", "007"][rng.below(7)].to_string(), "int-boundary"),
+        // (decimal literals up to 2^64-1 are numbers, for llvm-tblgen too; what lies beyond is not asserted)
+        2 => (["9223372036854775807", "-9223372036854775808", "+9223372036854775807", "0", "-0", "+0", "007", "9223372036854775808", "18446744073709551615", "+18446744073709551615", "10000000000000000000"][rng.below(11)].to_string(), "int-boundary"),
         _ => {
             let mut s = String::new();
             match rng.below(4) {
@@ -207,7 +208,7 @@ fn separator(rng: &mut Rng) -> (String, &'static str) {
         4 => ("\n".into(), "sp"),
         5 => ("\r\n".into(), "sp"),
         6 => ("  \n  ".into(), "sp"),
-        7 => (" // comment \"x\" /* y\n".into(), "line-comment"),
+        7 => ([" // comment \"x\" /* y\n", " // see the café example — 日本語 😀\n", "// é\r\n"][rng.below(3)].into(), "line-comment"),
         8 => ("/* c */".into(), "block-comment"),
         9 => ("/* a\n * b */ ".into(), "block-comment"),
         10 => ("/* a /* b */ c */".into(), "nested-block-comment"),
@@ -505,12 +506,12 @@ pub fn out_of_range(w: &str) -> bool {
     }
     let neg = w.starts_with('-');
     let digits = w.trim_start_matches(['-', '+']).trim_start_matches('0');
-    if digits.len() > 19 {
+    if digits.len() > 20 || (digits.len() == 20 && (neg || digits > "18446744073709551615")) {
         return true;
     }
     if digits.len() == 19 {
         let v: u128 = digits.parse().unwrap_or(u128::MAX);
-        return if neg { v > 9223372036854775808 } else { v > 9223372036854775807 };
+        return neg && v > 9223372036854775808;
     }
     false
 }
